@@ -228,3 +228,24 @@ Example c17_ex_answers :
   map (spec_answer ex_enum true ex_excl) [QNext 7; QFirst 13; QNPrev 20; QStop; QValid 12] =
   [APt (Some 24); APt (Some 24); APt (Some 6); APt (Some 54); ABool false].
 Proof. vm_compute. reflexivity. Qed.
+
+(* 7. The assumption that get_next follows the iteration is necessary for
+   transparency (third finding: month step, start point in another time zone
+   than the cycle point time zone: 20000130T1710-0800/P1M seen from +0530
+   iterates Jan 31, Mar 1, Mar 30, Apr 30 = days 31, 61, 90, 121, but get_next
+   of the re-parsed Mar 1 is Apr 1 = day 92): the answer to
+   get_next_point(Mar 15 = day 75) then depends on an earlier query. *)
+Theorem c17_transparency_needs_next_link :
+  exists enum complete bounded rnext rprev rvalid excl N fuel0,
+    ~ recurrence_ok enum complete rnext rvalid /\
+    run_all enum complete bounded rnext rprev rvalid excl N fuel0 st0 [QNext 75]
+      = [Ok (APt (Some 90))] /\
+    run_all enum complete bounded rnext rprev rvalid excl N fuel0 st0 [QNext 31; QNext 75]
+      = [Ok (APt (Some 61)); Ok (APt (Some 92))].
+Proof.
+  exists [31; 61; 90; 121], true, false,
+    (fun p => if p =? 31 then Some 60 else if p =? 61 then Some 92 else if p =? 90 then Some 121 else None),
+    (fun _ => None), (fun p => mem Z.eqb p [31; 61; 90; 121]), (fun _ => false), 3%nat, 10%nat.
+  split; [|split; reflexivity].
+  intros [_ [H _]]. specialize (H [] 31 61 [90; 121] eq_refl). discriminate H.
+Qed.
